@@ -12,7 +12,7 @@ TRUSTED_BASE = [
     "for the properties with a regenerated model (evidence key coverage.regenerated_model): the translator tools/rsparse.py + tools/rs2v.py (Rust subset -> Gallina; "
     "table-driven, anything unknown is an error), the primitive mappings of coq/GenPrelude.v and coq/GenTreePrelude.v (std str / String / Vec / Option / Result / Cow primitives, "
     "serde_json / toml maps as sorted association lists, `token.to_index()` in callers as prim_to_index = the hand-written index_from_str on the encoded text (tied by Proofs/GenEquivIndexStr.v to the translated chain Token::to_index -> try_into -> TryFrom<&Token> for Index -> Index::from_str), `p.tokens()` in callers as the list str_tokens (tied to the translated Pointer::tokens / Tokens::next by Proofs/GenEquivPtrOps.v; std's str::split(char) = split_on and Iterator::next on it = head / tail remain primitive)), usize `+` as unbounded addition, "
-    "str::split_at's char-boundary panic not modelled; the equivalence lemmas coq/Proofs/GenEquiv*.v are re-checked by coqc on every run; LENS MODE (the `&mut` walks of "
+    "str::split_at is modelled with BOTH its panics (out of range, and off a char boundary by core's byte-level test); the char-boundary panics of `&s[a..b]` on str, String::insert / remove / split_off are not modelled (the crate only calls these at positions it has computed with find / rfind); the equivalence lemmas coq/Proofs/GenEquiv*.v are re-checked by coqc on every run; LENS MODE (the `&mut` walks of "
     "src/assign.rs, src/delete.rs and resolve_mut as a reference, coq/Generated/ScanTreeMut.v): the lens primitives of coq/GenTreePrelude.v (lens_root / lens_arr / lens_obj / "
     "lens_index / lens_get_mut / lens_entry / lens_set) as the meaning of `&mut doc`, a Value::Array / Object / Table pattern under a reference, `&mut a[i]`, Map::get_mut, Map::entry "
     "(Occupied::into_mut / Vacant::insert) and of the writes mem::replace / Vec::push / Vec::remove / Map::remove / Map::insert through one; the translator's path-sensitive staleness "
